@@ -12,7 +12,7 @@ OBS = 'ObsC18'
 
 def _one(sc):
     import simpyev
-    return simpyev.run_script(sc)
+    return simpyev.run_script(sc, embedded=sc.get('embedded', False))
 
 
 def run(check):
@@ -38,6 +38,11 @@ def run(check):
     # beyond the enumerated bound: seeded random scripts with 3 processes x 3 steps, nested conditions
     import simpyev
     scenarios = scenarios + [simpyev.random_script(rng) for _ in range(30000 if check.tier == 'quick' else 300000)]
+    # the same scripts embedded in a native usim simulation next to a native activity waiting for event 1
+    emb = [dict(sc, embedded=True) for sc in rng.sample(scenarios, min(len(scenarios), 15000 if check.tier == 'quick' else 150000))
+           if sc['until'] < 10]
+    scenarios = scenarios + emb
+    check.extra['embedded_scripts'] = len(emb)
     import multiprocessing
     with multiprocessing.get_context('fork').Pool(16) as pool:
         traces = pool.map(_one, scenarios, chunksize=200)
